@@ -132,7 +132,7 @@ Reserved == {
   <<"Z","e","r","o","D","i","v","i","s","i","o","n","E","r","r","o","r">>, <<"_","_","b","u","i","l","d","_","c","l","a","s","s","_","_">>, 
   <<"_","_","d","e","b","u","g","_","_">>, <<"_","_","d","o","c","_","_">>, <<"_","_","i","m","p","o","r","t","_","_">>, 
   <<"_","_","l","o","a","d","e","r","_","_">>, <<"_","_","n","a","m","e","_","_">>, <<"_","_","p","a","c","k","a","g","e","_","_">>, 
-  <<"_","_","s","p","e","c","_","_">>, <<"a","b","s">>, <<"a","d","d","i","t","i","o","n","a","l","_","p","r","o","p","e","r","t","i","e","s">>, 
+  <<"_","_","s","p","e","c","_","_">>, <<"a","b","s">>, <<"a","d","d","i","t","i","o","n","a","l","_","p","r","o","p","e","r","t","i","e","s">>, <<"a","d","d","i","t","i","o","n","a","l","_","k","e","y","s">>, 
   <<"a","i","t","e","r">>, <<"a","l","l">>, <<"a","n","d">>, <<"a","n","e","x","t">>, <<"a","n","y">>, <<"a","s">>, <<"a","s","c","i","i">>, 
   <<"a","s","s","e","r","t">>, <<"a","s","y","n","c">>, <<"a","w","a","i","t">>, <<"b","i","n">>, <<"b","o","o","l">>, <<"b","r","e","a","k">>, 
   <<"b","r","e","a","k","p","o","i","n","t">>, <<"b","y","t","e","a","r","r","a","y">>, <<"b","y","t","e","s">>, <<"c","a","l","l","a","b","l","e">>, 
